@@ -230,8 +230,8 @@ def classify_back_edge(cx, b, tail, head):
 
 def _finite_iter_ty(st):
     s = st
-    for tok in ('std::iter::Chain<', 'std::slice::Iter<', 'std::iter::Once<', 'std::ops::Range<usize>', 'debt::Debt',
-                'arc_swap::debt::Debt', "'_", "'a", '&', ',', '>', ' ', 'usize'):
+    for tok in ('std::iter::Chain<', 'std::slice::Iter<', 'std::iter::Once<', 'std::ops::Range<usize>', 'arc_swap::debt::Debt',
+                'debt::Debt', "'_", "'a", '&', ',', '>', ' ', 'usize'):
         s = s.replace(tok, '')
     return s == ''
 
@@ -417,6 +417,11 @@ def _check_leaves(g, col, rule, seen, parent, forbid=('blocking',), allow_unclas
             if not allow_unclassified:
                 col.fail('ANCHOR', '%s|unclassified leaf|%s' % (rule, inst['path']),
                          'std/core leaf `%s` is not in tables/leaf_classes.json; classify it (chain: %s)' % (inst['path'], ' > '.join(g.chain(parent, i)[-4:])))
+            continue
+        if c == 'iter-hof':
+            self_ty = (inst.get('args') or [''])[0]
+            if not _finite_iter_ty(self_ty):
+                col.fail(rule, 'leaf|%s' % inst['path'], 'internal iteration over an iterator that is not a fixed slice/once/chain: %s' % self_ty, path=g.chain(parent, i))
             continue
         if c in forbid:
             col.fail(rule, 'leaf|%s' % inst['path'], '%s primitive reachable: %s' % (c, inst['pretty']), path=g.chain(parent, i))
